@@ -437,10 +437,13 @@ Definition disjoint (a b : list nat) : Prop := forall x, In x a -> In x b -> Fal
 (* ------------------------------------------------------------------ scenarios run by the correspondence *)
 (* two objects a (value va) and b (value vb) of the same type; op; then an in-place write of u to leaf p of
    `who` (false: the source/original, true: the copy/destination); result: the values read from (first, second) *)
-Inductive sc_op := ScClone | ScImatmul | ScIlshiftNoFlip | ScIlshiftFlip | ScIlshiftPokeFlip.
+Inductive sc_op := ScClone | ScImatmul | ScIlshiftNoFlip | ScIlshiftFlip | ScIlshiftPokeFlip | ScPoke.
 Definition run_scenario (op : sc_op) (va vb : value) (who : bool) (p : path) (u : Z) : value * value :=
   let '(a, st1) := alloc va empty_store in
   match op with
+  | ScPoke =>
+      (* just an in-place write to one leaf of a freshly built object: every other leaf keeps its value *)
+      let st2 := poke a p u st1 in (read st2 a, read st2 a)
   | ScClone =>
       let '(c, st2) := clone a st1 in
       let st3 := poke (if who then c else a) p u st2 in
